@@ -152,6 +152,13 @@ def C08():
         jobs.append(Kani("c08_" + n, "BitmapEvent::decompress (%s): Ok(v) => v.len() == width*height*4; no panic" % n,
                          tiers=("quick", "thorough") if q else ("thorough",), bounds={"case": n}, symbolic=["data bytes", "dest rectangle"],
                          functions=["core::event::BitmapEvent::decompress", "codec::rle::rgb565torgb32", "codec::rle::rle_32_decompress"], timeout=900, mem_gb=8))
+    jobs.append(Kani("c08_rle16_wrap_and_overrun", "rle_16_decompress: a run crossing the scanline end continues on the next scanline; a run longer than the image is refused (symbolic colour)", bounds={"image": "2x2"},
+                     symbolic=["colour"], functions=["codec::rle::rle_16_decompress"], timeout=900, mem_gb=8))
+    jobs.append(Kani("c08_rle16_color_run_partial", "rle_16_decompress: COLOR_RUN of 3 on a 2x2 image paints exactly three pixels in decode order", bounds={"image": "2x2"}, symbolic=["colour"],
+                     functions=["codec::rle::rle_16_decompress"], timeout=900, mem_gb=8, tiers=("thorough",)))
+    for code in ("a1", "fb", "ff"):
+        jobs.append(Kani("c08_rle16_unknown_" + code, "rle_16_decompress: order code 0x%s followed by any 3 bytes is an error, no panic" % code.upper(), bounds={"image": "2x2"}, symbolic=["3 bytes"],
+                         functions=["codec::rle::rle_16_decompress"], timeout=900, mem_gb=8, tiers=("quick", "thorough") if code == "a1" else ("thorough",)))
     jobs.append(MirJob("c08_mir_rle16_no_explicit_panic", "rle_16_decompress (interleaved RLE, which CBMC cannot execute): no explicit panic!/unreachable! is reachable in its control-flow graph (unknown order codes must be errors)",
                        mirjobs.no_reachable_call(r"^rle_16_decompress$", r"begin_panic|panic_fmt|panic_display|panic_explicit|core::panicking::panic$", "explicit panic in the interleaved decoder", native=lambda m: mirjobs.RLE16_NATIVE)))
     jobs.append(MirJob("c08_mir_unsupported_depth", "BitmapEvent::decompress: every path through the `otherwise` edge of the switch on bpp (any depth other than the listed ones) allocates nothing, calls no decoder and returns Err; the listed depths are exactly {16, 32}",
@@ -181,13 +188,33 @@ def C09():
         jobs.append(Kani("c09_rle32_exact_" + n, "planar RLE, %s image, segmentation per plane {%s}, symbolic value bytes in all four planes: output equals the clean-room MS-RDPEGDI reference decoder, rows top-down, BGRA" % (n.split("_")[0], seg),
                          tiers=("quick", "thorough") if q else ("thorough",), bounds={"image": n.split("_")[0], "segmentation": seg}, symbolic=["every raw/delta byte of the four planes"],
                          functions=["codec::rle::rle_32_decompress", "codec::rle::process_plane"], timeout=900, mem_gb=8))
+    for h, claim, q in (
+            ("c09_rle16_bg_run", "interleaved RLE: BG_RUN on a later scanline copies the pixel above (4 symbolic pixels)", True),
+            ("c09_rle16_fg_run", "FG_RUN: above xor fgPel with the default white foreground", True),
+            ("c09_rle16_set_fg_run", "SET_FG_FG_RUN (lite): above xor a symbolic new foreground", False),
+            ("c09_rle16_fgbg_image", "FGBG_IMAGE with a symbolic bit mask: each pixel is above or above xor fgPel", False),
+            ("c09_rle16_color_run", "COLOR_RUN repeats one symbolic colour", True),
+            ("c09_rle16_dithered", "DITHERED_RUN alternates its two symbolic colours", False),
+            ("c09_rle16_bg_bg_insert", "two consecutive BG_RUNs: the second starts with an inserted foreground pixel", True),
+            ("c09_rle16_white_black", "WHITE and BLACK single-pixel orders", False),
+            ("c09_rle16_fgbg1", "SPECIAL_FGBG_1: 8 pixels, mask 0x03", False),
+            ("c09_rle16_fgbg2", "SPECIAL_FGBG_2: 8 pixels, mask 0x05", False),
+            ("c09_rle16_mega_color_run", "MEGA_MEGA COLOR_RUN with a 16-bit run length", False),
+            ("c09_rle16_exact_values", "first-scanline semantics: COLOR_RUN carries its colour exactly, FGBG bits select white/black", True),
+            ("c09_rle16_fgbg_exact", "FGBG_IMAGE on a later scanline, symbolic mask: bit i selects above xor fgPel (white), else above", True),
+            ("c09_rle16_set_fg_fgbg_exact", "SET_FG_FGBG_IMAGE on a later scanline, symbolic mask and foreground", False),
+            ("c09_rle16_dithered_setfg_exact", "DITHERED_RUN colours and SET_FG_FG_RUN foreground carried exactly (first scanline)", False),
+            ("c09_rle16_unrolled_color_run", "the decoder's 8-way unrolled loop: COLOR_RUN of 10 on a 10-pixel scanline", True)):
+        jobs.append(Kani(h, "interleaved 16 bpp RLE, concrete order headers / symbolic values: " + claim, tiers=("quick", "thorough") if q else ("thorough",),
+                         bounds={"image": "Wx2 (W = 2..10)", "orders": "one concrete order sequence per harness"}, symbolic=["pixels", "colours", "masks"],
+                         functions=["codec::rle::rle_16_decompress"], timeout=900, mem_gb=8))
     return Prop("C09", [("codec/rle.rs", "codec.rs"), ("core/event.rs", "event.rs")], jobs, lowerings=["L2"],
                 assumptions=[S6, DEV, "planar streams are built from a concrete segmentation (control bytes) per instance with symbolic value bytes; the reference decoder in the harness (clean-room from MS-RDPEGDI 3.1.9) defines the expected image"],
                 text="Pixel exactness decided by the solver against clean-room references: 5-6-5 widening for all 65536 colours, raw 16/32 bpp row order for 2x2, planar RLE for every conformant stream of the stated lengths at up to 2x2.",
-                note="Interleaved 16 bpp RLE is not covered (G3). Planar RLE: seven segmentations (raw, split raw, raw+run, zero run, delta rows, both long-run forms) on images up to 18x2; the choice among segmentations is enumerated, not symbolic.",
+                note="Interleaved 16 bpp RLE: thirteen concrete order sequences with symbolic pixel/colour/mask values on images up to 10x1 / 8x2 (symbolic order bytes do not finish, G3); the choice among orders and run lengths is enumerated, not symbolic. Planar RLE: seven segmentations (raw, split raw, raw+run, zero run, delta rows, both long-run forms) on images up to 18x2; the choice among segmentations is enumerated, not symbolic.",
                 technique="Kani/CBMC bounded model checking (SAT), differential against reference decoders in the harness",
                 design_ref="DESIGN.md §4 C09",
-                outside=["interleaved RLE order types", "segmentations other than the seven listed", "images larger than 18x2"])
+                outside=["interleaved RLE: order mixes and run lengths other than the thirteen listed templates, mega forms other than COLOR_RUN", "planar segmentations other than the seven listed", "images larger than 18x2"])
 
 
 def C01():
